@@ -180,7 +180,7 @@ reg(Spec('C23', ['c23:C23'],
 reg(Spec('C24', ['c24:C24'],
          quick=[('DUPLEX', 1500), ('RACE', 800), ('ADV', 2000), ('MISUSE', 500)],
          thorough=[('DUPLEX', 30000), ('RACE', 20000), ('ADV', 50000), ('MISUSE', 10000)],
-         overrides={'*': {'ops_boost': {'altsvc': 6, 'trailers': 2}, 'misuse': 0.2, 'misuse_focus': [0, 12, 12, 13], 'aftermath': 0.4,
+         overrides={'*': {'ops_boost': {'altsvc': 6, 'trailers': 2}, 'misuse': 0.2, 'misuse_focus': [0, 12, 12, 13, 10, 10], 'aftermath': 0.4,
                           'aftermath_fsm': True}},
          rule=R_RUN + 'non-trivial = an advertisement attempted by a client or on a half-closed/closed stream, or an ALTSVC frame delivered on a faulted direction' + R_DISTINCT))
 
@@ -229,6 +229,7 @@ reg(Spec('C21', ['c21:C21'],
                       'a received GOAWAY discards pending output by design, C19)']))
 
 reg(Spec('C28', [],
+         overrides={'*': {'hdr_variety': 1.0, 'ops_boost': {'altsvc': 4, 'settings': 2, 'push': 2}, 'misuse': 0.15}},
          quick=[('DUPLEX', 500), ('RACE', 300), ('HDR', 300), ('CORRUPT', 300), ('ADV', 300), ('MISUSE', 300)],
          thorough=[('DUPLEX', 6000), ('RACE', 4000), ('HDR', 4000), ('CORRUPT', 4000), ('ADV', 4000), ('MISUSE', 4000), ('FLOW', 2000), ('UPGRADE', 2000)],
          rule='one evaluation = one simulated run whose recorded trace is re-executed in fresh interpreter processes under other PYTHONHASHSEED values; '
